@@ -7,20 +7,35 @@ The extractor (harness/cmd/extract) regenerates, on every run and from the tree 
 function: its branching constructs in source order, each guard with its condition and with how its branch ends (`return <err>`,
 `continue`, `panic`, …). The hand-written model mirrors exactly these decisions (its `…Pre` / `…Guards` functions are the
 guards of the handlers, in their order). This theorem says that for the files the property is anchored in
-(x/sao/abci.go, x/sao/keeper/expire_management.go, x/sao/keeper/expired_shard.go, x/model/abic.go, x/model/keeper/data_management.go, x/sao/keeper/msg_server_complete.go, x/sao/keeper/msg_server_renew.go) the regenerated skeletons equal the ones the model was written against. A change of a guard, of its
+(x/sao/abci.go, x/sao/keeper/expire_management.go, x/sao/keeper/expired_shard.go, x/model/abic.go, x/model/keeper/data_management.go, x/sao/keeper/msg_server_complete.go, x/sao/keeper/msg_server_renew.go; and, because the anchored code calls into them, x_sao_keeper_msg_server_terminate_go, x_sao_keeper_msg_server_migrate_go, x_order_keeper_order_management_go, x_node_keeper_shard_pledge_management_go) the regenerated skeletons equal the ones the model was written against. A change of a guard, of its
 order, or a new or removed branch breaks it: the correspondence then has to be re-established (the check searches the
 histories for a failing input and reports the violation either way).
 -/
 namespace SaoVerif
 
 theorem C11_decision_skeleton_as_modelled :
-    Generated.Skel.x_sao_abci_go = Expected.Skel.x_sao_abci_go ∧
-    Generated.Skel.x_sao_keeper_expire_management_go = Expected.Skel.x_sao_keeper_expire_management_go ∧
-    Generated.Skel.x_sao_keeper_expired_shard_go = Expected.Skel.x_sao_keeper_expired_shard_go ∧
-    Generated.Skel.x_model_abic_go = Expected.Skel.x_model_abic_go ∧
-    Generated.Skel.x_model_keeper_data_management_go = Expected.Skel.x_model_keeper_data_management_go ∧
-    Generated.Skel.x_sao_keeper_msg_server_complete_go = Expected.Skel.x_sao_keeper_msg_server_complete_go ∧
-    Generated.Skel.x_sao_keeper_msg_server_renew_go = Expected.Skel.x_sao_keeper_msg_server_renew_go := by
+    [Generated.Skel.x_sao_abci_go,
+     Generated.Skel.x_sao_keeper_expire_management_go,
+     Generated.Skel.x_sao_keeper_expired_shard_go,
+     Generated.Skel.x_model_abic_go,
+     Generated.Skel.x_model_keeper_data_management_go,
+     Generated.Skel.x_sao_keeper_msg_server_complete_go,
+     Generated.Skel.x_sao_keeper_msg_server_renew_go,
+     Generated.Skel.x_sao_keeper_msg_server_terminate_go,
+     Generated.Skel.x_sao_keeper_msg_server_migrate_go,
+     Generated.Skel.x_order_keeper_order_management_go,
+     Generated.Skel.x_node_keeper_shard_pledge_management_go] =
+    [Expected.Skel.x_sao_abci_go,
+     Expected.Skel.x_sao_keeper_expire_management_go,
+     Expected.Skel.x_sao_keeper_expired_shard_go,
+     Expected.Skel.x_model_abic_go,
+     Expected.Skel.x_model_keeper_data_management_go,
+     Expected.Skel.x_sao_keeper_msg_server_complete_go,
+     Expected.Skel.x_sao_keeper_msg_server_renew_go,
+     Expected.Skel.x_sao_keeper_msg_server_terminate_go,
+     Expected.Skel.x_sao_keeper_msg_server_migrate_go,
+     Expected.Skel.x_order_keeper_order_management_go,
+     Expected.Skel.x_node_keeper_shard_pledge_management_go] := by
   decide +kernel
 
 end SaoVerif
